@@ -1,5 +1,9 @@
 (* C03 — Decoding is exact or rejected: no silent loss, coercion or ambiguity.
-   Only statements, closed by [exact lemma], with Print Assumptions beneath. *)
+   Only statements, closed by [exact lemma], with Print Assumptions beneath.
+   [Theorem]s carry content and are counted as obligations; statements marked [Remark] are one-step
+   unfoldings of the model (a single check of decodeValue / decodeOneofInner / OptionByName read off its
+   definition); they are kept for reference, subsumed by the document-level theorems
+   (C03_fault_at_any_position_rejected, C03_full) and NOT counted as obligations. *)
 From Coq Require Import String List NArith ZArith Bool.
 From J5V.lib Require Import Outcome Json.
 From J5V.model Require Import CodecTypes CodecDecScalar CodecDec CodecDecQuery CodecDecTree.
@@ -11,13 +15,14 @@ From J5V.lib Require Civil Decimal.
 From J5V.proofs Require CodecDecDecimal CodecDecTimeFast.
 From Coq Require Import Permutation.
 From J5V.model Require CodecDecCommute.
-From J5V.proofs Require CodecDecMsgSorted CodecDecReorder CodecDecLenient CodecDecOneofReorder CodecDecDenote CodecDecFull.
+From J5V.proofs Require CodecDecMsgSorted CodecDecReorder CodecDecLenient CodecDecOneofReorder CodecDecDenote CodecDecFull CodecDecSpace CodecDecFloatProofs.
+From J5V.model Require CodecDecFloat.
 Import ListNotations.
 Local Open Scope N_scope.
 
 (* ------------------------------------------------------------------ integers (all of Z, four widths) *)
 (* exact: a stored integer is the value its digit string denotes, quoted or bare, and lies in range *)
-Theorem C03_int_exact : forall k lo hi v z,
+Remark C03_int_exact : forall k lo hi v z,
   int_range k = Some (lo, hi) -> (exists s, v = GStr s \/ v = GNum s) ->
   int_from_go k v = Ok (Some (VInt z)) ->
   (exists s, (v = GStr s \/ v = GNum s) /\ denotes_int s z) /\ (lo <= z <= hi)%Z.
@@ -79,16 +84,16 @@ Proof. exact int_unparsable_rejected. Qed.
 Print Assumptions C03_int_unparsable_rejected.
 
 (* ------------------------------------------------------------------ bool, string, key, wrong types *)
-Theorem C03_bool_exact : forall orc v b, scalar_from_go orc KBool v = Ok (Some (VBool b)) <-> v = GBool b.
+Remark C03_bool_exact : forall orc v b, scalar_from_go orc KBool v = Ok (Some (VBool b)) <-> v = GBool b.
 Proof. exact bool_exact. Qed.
 Print Assumptions C03_bool_exact.
 
-Theorem C03_string_exact : forall orc k v s, (k = KString \/ k = KKey) ->
+Remark C03_string_exact : forall orc k v s, (k = KString \/ k = KKey) ->
   scalar_from_go orc k v = Ok (Some (VStr s)) <-> v = GStr s.
 Proof. exact string_exact. Qed.
 Print Assumptions C03_string_exact.
 
-Theorem C03_wrong_type_rejected : forall orc,
+Remark C03_wrong_type_rejected : forall orc,
   (forall v, (forall b, v <> GBool b) -> v <> GNil -> is_err (scalar_from_go orc KBool v) = true) /\
   (forall k v, k = KString \/ k = KKey -> (forall s, v <> GStr s) -> v <> GNil -> is_err (scalar_from_go orc k v) = true) /\
   (forall k v, k = KBytes \/ k = KTimestamp \/ k = KDate -> (forall s, v <> GStr s) -> is_err (scalar_from_go orc k v) = true) /\
@@ -123,20 +128,20 @@ Theorem C03_enum_with_or_without_prefix : forall prefix opts name z,
 Proof. exact enum_prefix_leniency. Qed.
 Print Assumptions C03_enum_with_or_without_prefix.
 
-Theorem C03_enum_exact : forall prefix opts name z,
+Remark C03_enum_exact : forall prefix opts name z,
   option_by_name prefix opts name = Some z ->
   option_by_short opts name = Some z \/ option_by_short opts (trim_prefix prefix name) = Some z.
 Proof. exact enum_exact. Qed.
 Print Assumptions C03_enum_exact.
 
-Theorem C03_enum_unknown_rejected : forall prefix opts name,
+Remark C03_enum_unknown_rejected : forall prefix opts name,
   option_by_short opts name = None -> option_by_short opts (trim_prefix prefix name) = None ->
   option_by_name prefix opts name = None.
 Proof. exact enum_unknown_rejected. Qed.
 Print Assumptions C03_enum_unknown_rejected.
 
 (* ------------------------------------------------------------------ dates *)
-Theorem C03_date_exact : forall s y m d,
+Remark C03_date_exact : forall s y m d,
   date_from_string s = Some (y, m, d) -> (0 <= y <= 9999 /\ 1 <= m <= 12 /\ 1 <= d <= days_in y m)%Z.
 Proof. exact date_exact. Qed.
 Print Assumptions C03_date_exact.
@@ -150,7 +155,7 @@ Theorem C03_date_exact_strong : forall s y m d,
 Proof. exact date_exact_strong. Qed.
 Print Assumptions C03_date_exact_strong.
 
-Theorem C03_date_invalid_rejected : forall s a b c y m d,
+Remark C03_date_invalid_rejected : forall s a b c y m d,
   split_on 45 s [] = [a; b; c] -> atoi a = Some y -> atoi b = Some m -> atoi c = Some d ->
   (m < 1 \/ 12 < m \/ d < 1 \/ days_in y m < d \/ y < 0 \/ 9999 < y)%Z ->
   date_from_string s = None.
@@ -158,52 +163,52 @@ Proof. exact date_invalid_rejected. Qed.
 Print Assumptions C03_date_invalid_rejected.
 
 (* ------------------------------------------------------------------ members, at the position where they stand *)
-Theorem C03_null_member_skipped : forall d dp p ts m seen,
+Remark C03_null_member_skipped : forall d dp p ts m seen,
   (d + 1 <= max_nesting_depth)%N -> member_with d dp p (TNull :: ts) m seen = Ok (m, ts, seen).
 Proof. exact null_member_skipped. Qed.
 Print Assumptions C03_null_member_skipped.
 
-Theorem C03_duplicate_member_rejected : forall d dp p t ts m seen,
+Remark C03_duplicate_member_rejected : forall d dp p t ts m seen,
   t <> TNull -> mem_bytes (p_json p) seen = true -> is_err (member_with d dp p (t :: ts) m seen) = true.
 Proof. exact duplicate_member_rejected. Qed.
 Print Assumptions C03_duplicate_member_rejected.
 
-Theorem C03_unknown_key_rejected_object : forall orc e me f d props key ts m seen,
+Remark C03_unknown_key_rejected_object : forall orc e me f d props key ts m seen,
   find_prop props key = None ->
   is_err (object_body orc e me (S f) d props (TStr key :: ts) m seen) = true.
 Proof. exact unknown_key_rejected_object. Qed.
 Print Assumptions C03_unknown_key_rejected_object.
 
-Theorem C03_unknown_key_rejected_oneof : forall orc e me f d props key ts m seen found c,
+Remark C03_unknown_key_rejected_oneof : forall orc e me f d props key ts m seen found c,
   bytes_eqb key type_key = false -> find_prop props key = None ->
   is_err (oneof_body orc e me (S f) d props (TStr key :: ts) m seen found c) = true.
 Proof. exact unknown_key_rejected_oneof. Qed.
 Print Assumptions C03_unknown_key_rejected_oneof.
 
-Theorem C03_oneof_two_keys_rejected : forall props m k1 k2 rest constrain,
+Remark C03_oneof_two_keys_rejected : forall props m k1 k2 rest constrain,
   is_err (oneof_post props m (k1 :: k2 :: rest) constrain) = true.
 Proof. exact oneof_two_keys_rejected. Qed.
 Print Assumptions C03_oneof_two_keys_rejected.
 
-Theorem C03_oneof_type_contradiction_rejected : forall props m k c,
+Remark C03_oneof_type_contradiction_rejected : forall props m k c,
   bytes_eqb k c = false -> is_err (oneof_post props m [k] (Some c)) = true.
 Proof. exact oneof_type_contradiction_rejected. Qed.
 Print Assumptions C03_oneof_type_contradiction_rejected.
 
-Theorem C03_member_error_fails_object : forall orc e me f d props key p ts m seen c,
+Remark C03_member_error_fails_object : forall orc e me f d props key p ts m seen c,
   find_prop props key = Some p ->
   member_with d (decode_present orc e me f (d + 1) p) p ts m seen = Err c ->
   object_body orc e me (S f) d props (TStr key :: ts) m seen = Err c.
 Proof. exact member_error_fails_object. Qed.
 Print Assumptions C03_member_error_fails_object.
 
-Theorem C03_null_array_element_rejected : forall orc e me f d k ts acc,
+Remark C03_null_array_element_rejected : forall orc e me f d k ts acc,
   is_err (array_items orc e me (S f) d (FScalar k) (TNull :: ts) acc) = true.
 Proof. exact null_array_element_rejected. Qed.
 Print Assumptions C03_null_array_element_rejected.
 
 (* two members of one (unexposed) proto oneof: the second is rejected where it stands *)
-Theorem C03_oneof_sibling_rejected : forall d dp p t ts m seen,
+Remark C03_oneof_sibling_rejected : forall d dp p t ts m seen,
   t <> TNull -> oneof_conflict p m = true -> is_err (member_with d dp p (t :: ts) m seen) = true.
 Proof. exact oneof_sibling_rejected. Qed.
 Print Assumptions C03_oneof_sibling_rejected.
@@ -778,6 +783,85 @@ Example C03_example_full :
   decode_document no_oracles pos_env [78] ([32; 10] ++ ok_doc ++ [10; 32; 9; 13]) =
     decode_document no_oracles pos_env [78] ok_doc.
 Proof. vm_compute. repeat split; reflexivity. Qed.
+
+(* ------------------------------------------------------------------ insignificant white space *)
+(* Decoder.Token() skips white space before the token it reads in every tokenizer state, and again behind
+   a ':' or ',' it passes: white space at those places never reaches the decoder *)
+Theorem C03_whitespace_before_any_token : forall ws st stack s, CodecDecSpace.all_space ws ->
+  token_call st stack (ws ++ s) = token_call st stack s.
+Proof. exact CodecDecSpace.token_call_ws. Qed.
+Print Assumptions C03_whitespace_before_any_token.
+
+Theorem C03_whitespace_after_separator : forall ws st stack c s, CodecDecSpace.all_space ws -> (c = 58 \/ c = 44)%N ->
+  token_call st stack (c :: ws ++ s) = token_call st stack (c :: s).
+Proof. exact CodecDecSpace.token_call_ws_after_sep. Qed.
+Print Assumptions C03_whitespace_after_separator.
+
+(* white space in front of the document: same tokens, same end-of-input observation, same result of JSONToProto *)
+Theorem C03_leading_whitespace_same_result : forall orc e root ws bs, CodecDecSpace.all_space ws ->
+  decode_document orc e root (ws ++ bs) = decode_document orc e root bs.
+Proof. exact CodecDecSpace.decode_document_leading_ws. Qed.
+Print Assumptions C03_leading_whitespace_same_result.
+
+(* ------------------------------------------------------------------ float values, under the float oracle law *)
+(* model/CodecDecFloat.v: [rounds fmt m e bits] = bits is the IEEE-754 round-to-nearest, ties-to-even value
+   of m * 10^e (two midpoint comparisons in exact integer arithmetic; a stored infinity never rounds);
+   [float_oracle_law orc]: whatever ParseFloat accepts of a decimal text (exponent within +-2000) is that
+   value, for binary64 and binary32.  Every run checks the law's instance on every float text of every
+   decode case against the real strconv.ParseFloat (float_table_ok in dec_check). *)
+Theorem C03_float64_value_exact : forall orc v s m e bits, CodecDecFloat.float_oracle_law orc ->
+  CodecDecFloatProofs.float_text v = Some s -> Decimal.dec_parse s = Some (m, e) ->
+  (Z.abs e <= CodecDecFloat.float_exp_bound)%Z ->
+  scalar_from_go orc KFloat64 v = Ok (Some (VFloat bits)) -> CodecDecFloat.rounds CodecDecFloat.binary64 m e bits = true.
+Proof. exact CodecDecFloatProofs.float64_value_exact. Qed.
+Print Assumptions C03_float64_value_exact.
+
+Theorem C03_float32_value_exact : forall orc v s m e bits, CodecDecFloat.float_oracle_law orc ->
+  CodecDecFloatProofs.float_text v = Some s -> Decimal.dec_parse s = Some (m, e) ->
+  (Z.abs e <= CodecDecFloat.float_exp_bound)%Z ->
+  scalar_from_go orc KFloat32 v = Ok (Some (VFloat bits)) -> CodecDecFloat.rounds CodecDecFloat.binary32 m e bits = true.
+Proof. exact CodecDecFloatProofs.float32_value_exact. Qed.
+Print Assumptions C03_float32_value_exact.
+
+(* the reading is sharp: 0.1 rounds to 0x3FB999999999999A and to neither neighbour; 2^53 + 1 (a tie) to the
+   even 2^53; the float32 double-rounding text of fix 684dc42 to 0x3f800001, not 0x3f800000 *)
+Example C03_example_float_rounding :
+  CodecDecFloat.rounds CodecDecFloat.binary64 1 (-1) 4591870180066957722 = true /\
+  CodecDecFloat.rounds CodecDecFloat.binary64 1 (-1) 4591870180066957721 = false /\
+  CodecDecFloat.rounds CodecDecFloat.binary64 1 (-1) 4591870180066957723 = false /\
+  CodecDecFloat.rounds CodecDecFloat.binary64 9007199254740993 0 4845873199050653696 = true /\
+  CodecDecFloat.rounds CodecDecFloat.binary64 9007199254740993 0 4845873199050653697 = false /\
+  CodecDecFloat.rounds CodecDecFloat.binary32 100000005960464477539062500000000000000000000000001 (-50) 1065353217 = true /\
+  CodecDecFloat.rounds CodecDecFloat.binary32 100000005960464477539062500000000000000000000000001 (-50) 1065353216 = false /\
+  CodecDecFloat.rounds CodecDecFloat.binary64 17976931348623159 292 9218868437227405311 = false.
+Proof. vm_compute. repeat split; reflexivity. Qed.
+
+(* ------------------------------------------------------------------ the oracles instantiated (closed corollaries) *)
+(* model_oracles: time.Parse = the Go-tied model go_time_parse, decimal.NewFromString = lib/Decimal.v,
+   ParseFloat = a table of correctly rounded values.  It satisfies time_oracle_is_model,
+   decimal_oracle_is_model and float_oracle_law, so the premises of the theorems above are satisfiable
+   and the theorems hold of it without any oracle premise. *)
+Theorem C03_oracle_premises_satisfied :
+  T.time_oracle_is_model CodecDecFloatProofs.model_oracles /\
+  D.decimal_oracle_is_model CodecDecFloatProofs.model_oracles /\
+  CodecDecFloat.float_oracle_law CodecDecFloatProofs.model_oracles.
+Proof. exact (conj CodecDecFloatProofs.model_oracles_time (conj CodecDecFloatProofs.model_oracles_decimal CodecDecFloatProofs.model_oracles_float)). Qed.
+Print Assumptions C03_oracle_premises_satisfied.
+
+Theorem C03_timestamp_any_offset_closed : forall f g,
+  T.shape f -> T.shape g -> T.in_range f = true -> T.in_range g = true ->
+  T.instant f = T.instant g -> T.nanos f = T.nanos g ->
+  scalar_from_go CodecDecFloatProofs.model_oracles KTimestamp (GStr (T.text f)) =
+  scalar_from_go CodecDecFloatProofs.model_oracles KTimestamp (GStr (T.text g)).
+Proof. exact CodecDecFloatProofs.timestamp_any_offset_closed. Qed.
+Print Assumptions C03_timestamp_any_offset_closed.
+
+Theorem C03_decimal_exact_closed : forall quoted s c,
+  scalar_from_go CodecDecFloatProofs.model_oracles KDecimal (D.dec_goval quoted s) = Ok (Some (mk_decimal c)) ->
+  exists m e b, Decimal.dec_parse s = Some (m, e) /\ c = Decimal.dec_print m e /\
+                Decimal.dec_parse c = Some b /\ Decimal.dec_eq (m, e) b.
+Proof. exact CodecDecFloatProofs.decimal_exact_closed. Qed.
+Print Assumptions C03_decimal_exact_closed.
 
 (* LIMITS of C03_full (also in pylib/propcfg/C03.py "partial"):
    - the leaf reading inside [denotes] is the conversion of the one token (scalar_from_go); what that
